@@ -109,12 +109,28 @@ def pDictEntry : P (String × String) := do
   let t ← tok
   pure (h, t)
 
-def pLine : P (Dict × List (Draw Float)) := do
+/-- one recorded call: `D <draw>` | `I` (image) | `N` (new page, PDF only) -/
+inductive Rec where
+  | draw (d : Draw Float)
+  | image
+  | page
+
+def pRec : P Rec := do
+  let t ← tok
+  if t == "D" then (do let d ← pDraw; pure (Rec.draw d))
+  else if t == "I" then pure Rec.image
+  else if t == "N" then pure Rec.page
+  else failure
+
+def draws (rs : List Rec) : List (Draw Float) :=
+  rs.filterMap (fun r => match r with | .draw d => some d | _ => none)
+
+def pLine : P (Dict × List Rec) := do
   let k ← pNat
   let dict ← pMany pDictEntry k
   let n ← pNat
-  let ds ← pMany pDraw n
-  pure (dict, ds)
+  let rs ← pMany pRec n
+  pure (dict, rs)
 
 /-! rendering -/
 
@@ -143,6 +159,11 @@ def renderP (dict : Dict) (w : PW Float) : POp Float → List String
   | .path (.outline _) => ["Ph"]
   | .paint k => [pkText k]
   | .panic => ["PANIC"]
+  | .q => ["q"]
+  | .Q => ["Q"]
+  | .clip h => [if h then "Ph" else "P", "W", "n"]
+  | .cm => ["M", "cm"]
+  | .doIm k => ["/Im" ++ toString k, "Do"]
 
 def renderS (dict : Dict) : SOp Float → List String
   | .setgray v => [pr dict (Float.ofNat v / 255.0), "setgray"]
@@ -216,11 +237,17 @@ def svgProgText (dict : Dict) : List (Draw Float) → List Nat → List (List St
     let r := svgDefs d pats
     (r.2 ++ (svgDraw floatNum d).flatMap (renderElem dict r.1)) :: svgProgText dict ds r.1
 
-def pdfProgText (dict : Dict) : List (Draw Float) → PW Float → List (List String)
+def pdfProgText (dict : Dict) : List Rec → PPage Float → List (List String)
   | [], _ => []
-  | d :: ds, w =>
-    let r := pdfDraw floatNum d w
-    (r.2.flatMap (renderP dict r.1)) :: pdfProgText dict ds r.1
+  | .draw d :: rs, pg =>
+    let r := pdfItem floatNum (.draw d) pg
+    (r.2.flatMap (renderP dict r.1.w)) :: pdfProgText dict rs r.1
+  | .image :: rs, pg =>
+    let r := pdfItem floatNum .image pg
+    (r.2.flatMap (renderP dict r.1.w)) :: pdfProgText dict rs r.1
+  | .page :: rs, _ =>
+    -- NewPage: a fresh page writer (cache, resources) whose content starts with the mm -> pt matrix
+    ["M", "cm"] :: pdfProgText dict rs ⟨pw0 floatNum, 0⟩
 
 def psProgText (dict : Dict) : List (Draw Float) → SW Float → List (List String)
   | [], _ => []
@@ -246,17 +273,18 @@ def paintedText : Painted Float → String
     "stroke " ++ "+".intercalate (p.map refText) ++ " " ++ (if cl then "closes" else "asis") ++ " " ++ shadeText sh ++ " a" ++ toString a ++
     " " ++ hexOfFloat lw ++ " c" ++ toString c ++ " j" ++ toString j ++ " " ++ (match ml with | some x => hexOfFloat x | none => "-") ++
     " [" ++ ",".intercalate (da.map hexOfFloat) ++ "] " ++ hexOfFloat ph
+  | .image k a => "image " ++ toString k ++ " a" ++ toString a
   | .invalid why => "invalid(" ++ why.replace " " "_" ++ ")"
 
 def paintedLine (l : List (List (Painted Float))) : String :=
   " | ".intercalate (l.map (fun ps => " ; ".intercalate (ps.map paintedText)))
 
-def pdfItems : List (Draw Float) → PW Float → PG Float → List (List (Painted Float))
+def pdfPainted : List (Draw Float) → PW Float → PG Float → List (List (Painted Float))
   | [], _, _ => []
   | d :: ds, w, g =>
     let r := pdfDraw floatNum d w
     let i := pdfRun g r.2
-    i.2 :: pdfItems ds r.1 i.1
+    i.2 :: pdfPainted ds r.1 i.1
 
 def psItems : List (Draw Float) → SW Float → SG Float → List (List (Painted Float))
   | [], _, _ => []
@@ -268,11 +296,12 @@ def psItems : List (Draw Float) → SW Float → SG Float → List (List (Painte
 def handle : List String → Option String
   | tag :: rest =>
     match (pLine.run rest) with
-    | some ((dict, ds), []) =>
-      if tag == "PDF" then some (joinDraws (pdfProgText dict ds (pw0 floatNum)))
+    | some ((dict, rs), []) =>
+      let ds := draws rs
+      if tag == "PDF" then some (joinDraws (pdfProgText dict rs ⟨pw0 floatNum, 0⟩))
       else if tag == "PS" then some (joinDraws (psProgText dict ds (sw0 floatNum)))
       else if tag == "SVG" then some (joinDraws (svgProgText dict ds []))
-      else if tag == "PDFI" then some (paintedLine (pdfItems ds (pw0 floatNum) (pg0 floatNum)))
+      else if tag == "PDFI" then some (paintedLine (pdfPainted ds (pw0 floatNum) (pg0 floatNum)))
       else if tag == "PSI" then some (paintedLine (psItems ds (sw0 floatNum) (sg0 floatNum)))
       else if tag == "SVGI" then some (paintedLine (ds.map (fun d => svgRun floatNum (svgDraw floatNum d))))
       else if tag == "PDFR" then some (paintedLine (ds.map (pdfRef floatNum)))
